@@ -128,7 +128,7 @@ def model_check(ctx, cfgname, what, invariants, workers, sensitivity=True, **con
     return res
 
 
-def generate(ctx, fams, stride, d2stride, workers, name="vec", minimum=50):
+def generate(ctx, fams, stride, d2stride, workers, name="vec", minimum=50, base=1, d2base=8):
     out = os.path.join(ctx.scratch, name + ".ndjson")
     if os.path.exists(out):
         os.unlink(out)
@@ -140,7 +140,7 @@ def generate(ctx, fams, stride, d2stride, workers, name="vec", minimum=50):
         ctx.cov["transitions"] += 1
         return vt.read_ndjson(ckey)
     cfg = ctx.cfg("expr", "ExprGen.cfg", name=name, Fams="{%s}" % ",".join('"%s"' % f for f in fams),
-                  Seed=ctx.seed, Stride=stride, D2Stride=d2stride)
+                  Seed=ctx.seed, Stride=stride, D2Stride=d2stride, Base=base, D2Base=d2base)
     g = ctx.tlc("expr", "ExprGen", cfg, env=dict(OUT=out), workers=workers, timeout=2400, heap="6g")
     if not g.ok:
         raise Infra("ExprGen reported %s:\n%s" % (g.violated, g.trace_text()[:2000]))
